@@ -82,42 +82,103 @@ Section Keyless.
 
   (* ----- dictionaries with keys in P ----- *)
   Definition dok := dict_ok P.
+  (* the conditions on the keys only *)
+  Definition kok (d : list (expr * number)) : Prop :=
+    (forall p, In p d -> P (fst p)) /\ pairwise_ne (map fst d) = true.
 
-  Lemma dok_nodup : forall d, dok d -> NoDup d.
+  Lemma dok_kok : forall d, dok d -> kok d.
+  Proof. intros d [K NE]. split; [intros p Hp; apply (K p Hp) | exact NE]. Qed.
+
+  Lemma kok_tail : forall p d, kok (p :: d) -> kok d.
+  Proof.
+    intros p d [H1 H2]. split; [intros; apply H1; right; assumption|].
+    cbn [map] in H2. apply pairwise_ne_cons in H2. apply H2.
+  Qed.
+
+  Lemma kok_unique : forall d p q, kok d -> In p d -> In q d ->
+    expr_eqb (fst p) (fst q) = true -> p = q.
+  Proof.
+    induction d as [|e d IH]; intros p q OK Hp Hq E; [contradiction|].
+    pose proof (kok_tail _ _ OK) as OK'. destruct OK as [K NE].
+    cbn [map] in NE. apply pairwise_ne_cons in NE. destruct NE as [NE _].
+    destruct Hp as [->|Hp]; destruct Hq as [->|Hq].
+    - reflexivity.
+    - rewrite (NE (fst q)) in E by (apply in_map; assumption). discriminate.
+    - apply Peq_sym in E; [| apply K; right; assumption | apply K; left; reflexivity].
+      rewrite (NE (fst p)) in E by (apply in_map; assumption). discriminate.
+    - apply IH; assumption.
+  Qed.
+
+  Lemma kok_nodup : forall d, kok d -> NoDup d.
   Proof.
     induction d as [|p d IH]; intros OK; constructor.
-    - intros Hin. pose proof (proj1 OK p (or_introl eq_refl)) as [Pp _].
+    - intros Hin. pose proof (proj1 OK p (or_introl eq_refl)) as Pp.
       destruct OK as [_ NE]. cbn [map] in NE. apply pairwise_ne_cons in NE. destruct NE as [NE _].
       specialize (NE (fst p) (in_map fst d p Hin)). rewrite (Peq_refl (fst p) Pp) in NE. discriminate.
-    - apply IH. eapply dict_ok_tail; eassumption.
+    - apply IH. eapply kok_tail; eassumption.
   Qed.
 
-  Lemma dok_all_comparable : forall d, dok d -> all_comparable expr_eqb expr_cmp d.
+  Lemma kok_all_comparable : forall d, kok d -> all_comparable expr_eqb expr_cmp d.
   Proof.
-    intros d OK. split; [apply dok_nodup; exact OK|].
+    intros d OK. split; [apply kok_nodup; exact OK|].
     intros p q Hp Hq Npq. unfold comparable.
-    destruct (proj1 OK p Hp) as [Pp _]. destruct (proj1 OK q Hq) as [Pq _].
+    pose proof (proj1 OK p Hp) as Pp. pose proof (proj1 OK q Hq) as Pq.
     destruct (kl (fst p) (fst q)) eqn:A; [left; reflexivity|].
     destruct (kl (fst q) (fst p)) eqn:B; [right; reflexivity|].
-    exfalso. apply Npq. apply (dict_unique P Peq_sym d); auto. apply kl_total; auto.
+    exfalso. apply Npq. apply (kok_unique d); auto. apply kl_total; auto.
   Qed.
 
-  Lemma dok_keysP : forall d, dok d -> keysP P d.
+  Lemma pairwise_ne_cons_intro : forall x l,
+    (forall y, In y l -> expr_eqb x y = false) -> pairwise_ne l = true -> pairwise_ne (x :: l) = true.
+  Proof.
+    intros x l H1 H2. cbn [pairwise_ne]. rewrite H2, andb_true_r. apply forallb_forall.
+    intros y Hy. rewrite (H1 y Hy). reflexivity.
+  Qed.
+
+  Lemma pne_perm : forall l1 l2, Permutation l1 l2 -> (forall x, In x l1 -> P x) ->
+    pairwise_ne l1 = true -> pairwise_ne l2 = true.
+  Proof.
+    induction 1; intros K NE.
+    - reflexivity.
+    - apply pairwise_ne_cons in NE. destruct NE as [NE1 NE2]. apply pairwise_ne_cons_intro.
+      + intros y Hy. apply NE1. eapply Permutation_in; [apply Permutation_sym; eassumption | exact Hy].
+      + apply IHPermutation; auto. intros; apply K; right; assumption.
+    - apply pairwise_ne_cons in NE. destruct NE as [NEy NE]. apply pairwise_ne_cons in NE. destruct NE as [NEx NE].
+      apply pairwise_ne_cons_intro; [|apply pairwise_ne_cons_intro; [|exact NE]].
+      + intros z [<-|Hz]; [|apply NEx; exact Hz].
+        destruct (expr_eqb x y) eqn:E; [|reflexivity].
+        apply Peq_sym in E; [| apply K; right; left; reflexivity | apply K; left; reflexivity].
+        rewrite (NEy x) in E by (left; reflexivity). discriminate.
+      + intros z Hz. apply NEy. right. exact Hz.
+    - apply IHPermutation2; [|apply IHPermutation1; assumption].
+      intros x Hx. apply K. eapply Permutation_in; [apply Permutation_sym; eassumption | exact Hx].
+  Qed.
+
+  Lemma kok_perm : forall d1 d2, Permutation d1 d2 -> kok d1 -> kok d2.
+  Proof.
+    intros d1 d2 PM [K NE]. split.
+    - intros p Hp. apply K. eapply Permutation_in; [apply Permutation_sym; exact PM | exact Hp].
+    - apply (pne_perm (map fst d1) (map fst d2)); [apply Permutation_map; exact PM | | exact NE].
+      intros x Hx. apply in_map_iff in Hx. destruct Hx as [p [<- Hp]]. apply K; exact Hp.
+  Qed.
+
+  Lemma kok_keysP : forall d, kok d -> keysP P d.
   Proof. intros d OK p Hp. apply (proj1 OK p Hp). Qed.
 
   Notation sortd := (map_of_umap expr_eqb expr_cmp).
 
-  Lemma sortd_perm : forall d, dok d -> Permutation (sortd d) d.
-  Proof. intros. apply map_of_umap_perm. apply dok_all_comparable. assumption. Qed.
-  Lemma sortd_sorted : forall d, dok d -> ssorted expr_eqb expr_cmp (sortd d).
-  Proof. intros. apply (map_of_umap_sorted expr_eqb expr_cmp P kl_trans). apply dok_keysP. assumption. Qed.
-  Lemma sortd_keysP : forall d, dok d -> keysP P (sortd d).
+  Lemma sortd_perm : forall d, kok d -> Permutation (sortd d) d.
+  Proof. intros. apply map_of_umap_perm. apply kok_all_comparable. assumption. Qed.
+  Lemma sortd_sorted : forall d, kok d -> ssorted expr_eqb expr_cmp (sortd d).
+  Proof. intros. apply (map_of_umap_sorted expr_eqb expr_cmp P kl_trans). apply kok_keysP. assumption. Qed.
+  Lemma sortd_keysP : forall d, kok d -> keysP P (sortd d).
   Proof.
-    intros d OK p Hp. apply (dok_keysP d OK). eapply Permutation_in; [apply sortd_perm; exact OK | exact Hp].
+    intros d OK p Hp. apply (kok_keysP d OK). eapply Permutation_in; [apply sortd_perm; exact OK | exact Hp].
   Qed.
   Lemma sortd_nwf : forall d, dok d -> nwf (sortd d).
   Proof.
-    intros d OK p Hp. apply (proj1 OK p). eapply Permutation_in; [apply sortd_perm; exact OK | exact Hp].
+    intros d OK p Hp. apply (proj1 OK p).
+    eapply Permutation_in; [apply sortd_perm; apply dok_kok; exact OK | exact Hp].
   Qed.
 
   (* the sorted images of two dictionaries compare equal iff the dictionaries are eq *)
@@ -127,15 +188,16 @@ Section Keyless.
     intros d1 d2 OK1 OK2 L.
     rewrite (numpairs_sized_cmp_eq_iff expr_cmp expr_eqb);
       [ | apply sortd_nwf; assumption | apply sortd_nwf; assumption
-        | intros p q Hp Hq; apply HE; [apply (sortd_keysP d1 OK1 p Hp) | apply (sortd_keysP d2 OK2 q Hq)] ].
+        | intros p q Hp Hq; apply HE; [apply (sortd_keysP d1 (dok_kok d1 OK1) p Hp) | apply (sortd_keysP d2 (dok_kok d2 OK2) q Hq)] ].
     rewrite (umap_eqb_spec P Peq_sym Peq_trans Peq_hash d1 d2 OK1 OK2).
-    pose proof (sortd_perm d1 OK1) as PM1. pose proof (sortd_perm d2 OK2) as PM2.
+    pose proof (dok_kok d1 OK1) as KK1. pose proof (dok_kok d2 OK2) as KK2.
+    pose proof (sortd_perm d1 KK1) as PM1. pose proof (sortd_perm d2 KK2) as PM2.
     split.
     - intros F. split; [exact L|]. intros p Hp.
       assert (Hp' : In p (sortd d1)) by (eapply Permutation_in; [apply Permutation_sym; exact PM1 | exact Hp]).
       destruct (Forall2_in_l _ _ _ _ F Hp') as [q [Hq [E1 E2]]].
       exists q. split; [eapply Permutation_in; [exact PM2 | exact Hq]|].
-      split; [|exact E2]. apply Peq_sym; auto; [apply (sortd_keysP d1 OK1 p Hp') | apply (sortd_keysP d2 OK2 q Hq)].
+      split; [|exact E2]. apply Peq_sym; auto; [apply (sortd_keysP d1 KK1 p Hp') | apply (sortd_keysP d2 KK2 q Hq)].
     - intros [_ H12].
       assert (H21 : forall q, In q d2 -> exists p, In p d1 /\ entry_rel q p).
       { assert (U : umap_eqb expr_eqb d1 d2 = true)
@@ -165,7 +227,7 @@ Section Keyless.
   Qed.
 
   (* the ordered container does not depend on the insertion order *)
-  Lemma sortd_perm_eq : forall d1 d2, dok d1 -> dok d2 -> Permutation d1 d2 -> sortd d1 = sortd d2.
+  Lemma sortd_perm_eq : forall d1 d2, kok d1 -> kok d2 -> Permutation d1 d2 -> sortd d1 = sortd d2.
   Proof.
     intros d1 d2 OK1 OK2 PM.
     apply (sorted_perm_unique expr_eqb expr_cmp P kl_asym).
